@@ -14,4 +14,5 @@ def stage(ctx):
     ctx.coverage["search_rule"] = "class-W generator (P = LL^T + mu I, mu >= 1/2; Slater point with margin >= 1/2; A = [I | R]; entries O(1)) x 5 back ends x settings grid, double build, default tolerances; any non-SOLVED is a violation"
 
 def run(ctx):
-    return run_solver_property(ctx, "C02", codes=("C02", "C01"), focus_mix=("single", "mixed"), n_quick=24, extra_stage=stage)
+    return run_solver_property(ctx, "C02", codes=("C02", "C01"), focus_mix=("single", "mixed"), n_quick=24, extra_stage=stage,
+                               extra_theorem_files=("Properties_C13.v", "Properties_C08_interior.v"))
